@@ -95,8 +95,9 @@ def job_opts(ctx, i, kinds, objs):
 
 
 class Cover:
-    def __init__(self, pid, clauses, focus):
+    def __init__(self, pid, clauses, focus, devs=cd.DEVIATIONS):
         self.pid = pid
+        self.devs = set(devs)              # deviations whose clauses belong to this property (the others: the other check's)
         self.clauses = set(clauses)
         self.focus = focus                 # action names that make a tour non-trivial for this property
         self.tours = 0
@@ -119,6 +120,8 @@ def attribute(m, c, primary):
     d = cd.CLAUSE_DEVIATION.get(m['clause'])
     if d:
         return d
+    if m.get('blob') and c.get('SpBlobByName') and m['clause'] in ('stale', 'dirty-idle'):
+        return 'SpBlobByName'        # a blob activated from a stale savepoint file that is gone with the store
     if primary:
         return sorted(primary)[0]
     on = [k for k in cd.DEVIATIONS if c.get(k)]
@@ -189,7 +192,8 @@ def judge(ctx, cov, results):
         if len(cov.samples) < 4 and len(r['sig']) >= 6 and focus:
             cov.samples.append(r['sig'][:40])
         for v in r['violations']:
-            if v['clause'] is not None and v['clause'] not in cov.clauses:
+            if v['clause'] is not None and (v['clause'] not in cov.clauses or
+                                            (v['sig']['deviation'] in cd.DEVIATIONS and v['sig']['deviation'] not in cov.devs)):
                 cov.other_clauses[v['key']] = cov.other_clauses.get(v['key'], 0) + 1
                 continue
             cov.violations[v['key']] = cov.violations.get(v['key'], 0) + 1
@@ -292,7 +296,7 @@ def _graph_process(conn_, ctx, name, c, dot, distinct, kinds, budget, cap, worke
         if len(g.raw) != distinct:
             raise RuntimeError('dumped graph %s has %d states, TLC reported %d' % (name, len(g.raw), distinct))
         t1 = time.time()
-        tours, st = cg.plan(g, ctx.seed, cap=cap, budget=budget)
+        tours, st = cg.plan(g, ctx.seed, cap=cap, budget=budget, near=8 if len(g.raw) < 40000 else 5)
         t2 = time.time()
         cg.CURRENT, cg.TOURS = g, tours
         order = list(range(len(tours)))
@@ -449,7 +453,7 @@ def finish(ctx, cov, need, rule, dev):
     }, ASSUME)
 
 
-def replay(ctx, data, clauses, focus):
+def replay(ctx, data, clauses, focus, devs=cd.DEVIATIONS):
     rp = data['replay']
     c = rp['consts']
     c = dict(c, Obj=tuple(c['Obj']), Blobs=tuple(c['Blobs']), Val=tuple(c['Val']), Pre=tuple(c['Pre']), Ops=tuple(c['Ops']))
@@ -459,7 +463,7 @@ def replay(ctx, data, clauses, focus):
     opts = dict(rp['opts'])
     res = cd.replay_path((steps, c, opts['kind'], os.path.join(ctx.scratch, 'replay'), opts))
     print('replayed %s' % ' '.join(res['sig']))
-    cov = Cover(ctx.pid, clauses, focus)
+    cov = Cover(ctx.pid, clauses, focus, devs)
     for m in res['monitor']:
         m['step'] += 1
     if res['mismatch']:
